@@ -11,7 +11,7 @@ E1 with the reference model mc/model/scope.py (persistent-environment evaluator)
     through a lambda, nested in function bodies;
  6. identifier spellings: distinct spellings in every declaration role never alias."""
 import itertools
-from ..core import Report, Failure, run_job, run_units, mk_unit_job, pmap, chunks, decode, veq, Err, Viol, Panic, Fatal, CErr, HostErr
+from ..core import Report, Failure, run_job, run_units, mk_unit_job, pmap, pmap_stream, chunks, decode, veq, Err, Viol, Panic, Fatal, CErr, HostErr
 from ..model import scope as S
 
 PROP = 'C03'
@@ -107,13 +107,18 @@ def number(x, ctr):
     return x
 
 
-def tree_programs(tier):
-    """(program, rendered key, run_at_top_level)"""
+def tree_plans(tier):
     if tier == 'quick':
-        plans = [(3, 2, ['a', 'b'], ['l'], False), (3, 3, ['a'], ['l'], False), (2, 2, ['a', 'b'], ['l'], True)]
-    else:
-        plans = [(4, 3, ['a', 'b'], ['l', 'a'], False), (5, 4, ['a'], [], False), (3, 3, ['a', 'b'], ['l'], True)]
-    seen = {}
+        return [(3, 2, ['a', 'b'], ['l'], False), (3, 3, ['a'], ['l'], False), (2, 2, ['a', 'b'], ['l'], True)]
+    return [(4, 3, ['a', 'b'], ['l'], False), (5, 3, ['a'], [], False), (4, 4, ['a'], ['l'], False), (3, 3, ['a', 'b'], ['l', 'a'], True)]
+
+
+def iter_trees(tier):
+    """(program, rendered key, run_at_top_level); duplicates between plans are dropped (top-level plans come first so that they keep
+    their flag)"""
+    import hashlib
+    seen = set()
+    plans = sorted(tree_plans(tier), key=lambda p: not p[4])
     for budget, depth, vars_, lams, top in plans:
         for decls, b, ss in gen_decls(budget, depth, [], frozenset(), '', vars_, lams):
             if not decls:
@@ -121,12 +126,53 @@ def tree_programs(tier):
             prog = decls + [('let', 'r', observe(ss, frozenset()))]
             prog = number(prog, [0])
             key = S.rdecls(prog)
-            if key in seen:
-                if top and not seen[key][2]:
-                    seen[key] = (prog, key, True)
+            d = hashlib.sha1(key.encode()).digest()[:10]
+            if d in seen:
                 continue
-            seen[key] = (prog, key, top)
-    return list(seen.values())
+            seen.add(d)
+            yield prog, key, top
+
+
+def _tree_worker(args):
+    """reference evaluation, rendering through the transports, execution and comparison of one batch of trees; returns
+    (evaluations, outcome counts, failures)"""
+    import hashlib, collections
+    batch, tier = args
+    kinds = ['direct'] + [k for k in TRANSPORTS if k not in ('direct', 'alias')]
+    wrapped, top = [], []
+    for prog, key, at_top in batch:
+        try:
+            exp = S.run_ref(prog)
+        except S.Budget:
+            continue
+        h = int(hashlib.sha1(key.encode()).hexdigest()[:8], 16)
+        for ki, kind in enumerate(kinds):
+            # every tree directly; quick: one further transport per tree (round robin); thorough: all for small trees, two for the rest
+            if kind != 'direct':
+                if tier == 'quick' and (h % (len(kinds) - 1)) != ki - 1:
+                    continue
+                if tier != 'quick' and len(key) > 400 and (h % (len(kinds) - 1)) not in (ki - 1, (ki + 2) % (len(kinds) - 1)):
+                    continue
+            src = transport_src(prog, kind)
+            sig = 'tree|%s|%s' % (kind, hashlib.sha1(key.encode()).hexdigest()[:14])
+            wrapped.append((sig, src, exp))
+            if at_top:
+                top.append(('tree-top|%s|%s' % (kind, hashlib.sha1(key.encode()).hexdigest()[:14]), src, exp))
+    res_w = []
+    for w in chunks([x[1] for x in wrapped], 120):
+        res_w += _run_wrapped(w)
+    res_t = _run_programs([(x[1], None) for x in top]) if top else []
+    counts = collections.Counter()
+    fails = []
+    sigs = []
+    for group, res, is_wrapped in ((wrapped, res_w, True), (top, res_t, False)):
+        for (sig, src, (ev, eo)), got in zip(group, res):
+            cls, why, exp_t, act_t = judge_value(ev, eo, got)
+            counts[cls] += 1
+            sigs.append(sig)
+            if why:
+                fails.append((sig, why, src, exp_t, act_t, is_wrapped))
+    return counts, sigs, fails
 
 
 def transport_src(prog, kind):
@@ -499,22 +545,15 @@ def mkjob(src):
     return {'id': 0, 'limits': {}, 'dump': {'max_items': 100}, 'steps': [{'feed': HELP}, {'feed': src}, {'op': 'inst'}, {'op': 'get', 'name': 'r'}]}
 
 
-def check_value(rep, sig, src, exp_v, exp_out, got, job=None):
+def judge_value(exp_v, exp_out, got):
+    """(outcome class, why or None, expected text, actual text)"""
     kind, a, b = got
-    job = job or mkjob(src)
-    rep.evaluations += 1
-    rep.nontrivial.add(sig)
-    rep.states += 1
-    rep.transitions += 1
     if kind == 'value' and isinstance(a, (Viol, Panic)):
         kind, a, b = ('panic', a.loc, a.msg) if isinstance(a, Panic) else ('violation', a.kind, '')
     if kind != 'value':
-        rep.outcome(kind)
         from ..core import norm_loc
         why = kind + (':' + a if kind == 'cerr' else ('@' + norm_loc(a.replace('compile:', '')) if kind == 'panic' else ''))
-        rep.fail(Failure(PROP, '%s|%s' % (sig, why), {'src': src}, '%r out=%r' % (exp_v, exp_out), '%s %s %s' % (kind, a, str(b)[:200]), job))
-        return
-    rep.outcome('value')
+        return kind, why, '%r out=%r' % (exp_v, exp_out), '%s %s %s' % (kind, a, str(b)[:200])
     v = a
     from ..core import Seq
     if isinstance(exp_v, list):
@@ -522,9 +561,21 @@ def check_value(rep, sig, src, exp_v, exp_out, got, job=None):
     else:
         ok = veq(v, exp_v)
     if not ok:
-        rep.fail(Failure(PROP, sig + '|wrong-value', {'src': src}, repr(exp_v)[:300], repr(v)[:300], job))
-    elif exp_out is not None and b != exp_out:
-        rep.fail(Failure(PROP, sig + '|wrong-output', {'src': src}, repr(exp_out), repr(b), job))
+        return 'value', 'wrong-value', repr(exp_v)[:300], repr(v)[:300]
+    if exp_out is not None and b != exp_out:
+        return 'value', 'wrong-output', repr(exp_out), repr(b)
+    return 'value', None, '', ''
+
+
+def check_value(rep, sig, src, exp_v, exp_out, got, job=None):
+    rep.evaluations += 1
+    rep.nontrivial.add(sig)
+    rep.states += 1
+    rep.transitions += 1
+    cls, why, exp_t, act_t = judge_value(exp_v, exp_out, got)
+    rep.outcome(cls)
+    if why:
+        rep.fail(Failure(PROP, '%s|%s' % (sig, why), {'src': src}, exp_t, act_t, job or mkjob(src)))
 
 
 def run(tier):
@@ -537,31 +588,41 @@ def run(tier):
                  'and closures created per iteration / per recursion level; (5) forward declarations: every declaration order x use position '
                  'x target x 6 ways of using a function; (6) %d identifier spellings in 5 declaration roles and all ordered pairs; '
                  'non-trivial = distinct programs' % (len(TRANSPORTS), len(IDENTS)))
-    # 1. trees
-    progs = tree_programs(tier)
-    rep.bounds['declaration_trees'] = len(progs)
-    rep.bounds['declaration_trees_also_at_top_level'] = sum(1 for p in progs if p[2])
-    kinds = ['direct'] + [k for k in TRANSPORTS if k not in ('direct', 'alias')]
-    wrapped, top = [], []
+    # 1. trees (streamed in batches: reference evaluation and rendering happen in the workers)
     import hashlib
-    for prog, key, at_top in progs:
-        try:
-            exp = S.run_ref(prog)
-        except S.Budget:
-            continue
-        h = int(hashlib.sha1(key.encode()).hexdigest()[:8], 16)
-        for ki, kind in enumerate(kinds):
-            # every tree directly; quick: one further transport per tree (round robin), thorough: all for small trees, two for the rest
-            if kind != 'direct':
-                if tier == 'quick' and (h % (len(kinds) - 1)) != ki - 1:
-                    continue
-                if tier != 'quick' and len(key) > 400 and (h % (len(kinds) - 1)) not in (ki - 1, (ki + 2) % (len(kinds) - 1)):
-                    continue
-            src = transport_src(prog, kind)
-            wrapped.append(('tree|%s|%s' % (kind, key), src, exp))
-            if at_top:
-                top.append(('tree-top|%s|%s' % (kind, key), src, exp))
-    rep.bounds['tree_runs'] = len(wrapped) + len(top)
+    ntrees = 0
+    ntop = 0
+    nruns = 0
+    sample_tree = None
+
+    def batches():
+        nonlocal ntrees, ntop, sample_tree
+        cur = []
+        for item in iter_trees(tier):
+            ntrees += 1
+            ntop += bool(item[2])
+            if ntrees == 1000:
+                sample_tree = item[1]
+            cur.append(item)
+            if len(cur) >= 1500:
+                yield (cur, tier)
+                cur = []
+        if cur:
+            yield (cur, tier)
+    for counts, sigs, fails in pmap_stream(_tree_worker, batches()):
+        for cls, n in counts.items():
+            rep.outcomes[cls] = rep.outcomes.get(cls, 0) + n
+            rep.evaluations += n
+            rep.states += n
+            rep.transitions += n
+            nruns += n
+        rep.nontrivial_count += len(sigs)
+        for sig, why, src, exp_t, act_t, is_wrapped in fails:
+            rep.fail(Failure(PROP, 'C03|%s|%s' % (sig, why), {'src': src}, exp_t, act_t, wrapjob(src) if is_wrapped else mkjob(src)))
+    rep.bounds['declaration_trees'] = ntrees
+    rep.bounds['declaration_trees_also_at_top_level'] = ntop
+    rep.bounds['tree_runs'] = nruns
+    wrapped, top = [], []
     # 2. capture matrix
     cm = capture_matrix(tier)
     rep.bounds['capture_matrix_programs'] = len(cm)
@@ -619,7 +680,7 @@ def run(tier):
                 rep.fail(Failure(PROP, sig + '|accepted', {'src': src}, 'a compilation error', '%s %r' % (got[0], got[1]), mkjob(src)))
         else:
             check_value(rep, sig, src, exp, None, got)
-    rep.sample({'tree': work[len(work) // 2][1][:400]})
+    rep.sample({'tree': (sample_tree or '')[:400]})
     rep.sample({'capture': S.rdecls(cm[len(cm) // 2][0])[:400]})
     rep.sample({'forward': fc[7][1]})
     rep.assumptions = ['named functions have program-unique names (same-named functions aggregate into overloads: C05)',
